@@ -362,6 +362,9 @@ func (d *sDest) Write(ctx context.Context, recs []opencdc.Record) error {
 		// C08: a record a processor filtered out or failed never reaches a destination
 		verifAssert(!w.filtered[i], "c08-filtered-record-delivered")
 		verifAssert(!w.procErr[i], "c08-failed-record-delivered")
+		// C05 reads the same event as "filtered or dead-lettered records are absent"
+		verifAssert(!w.filtered[i], "c05-filtered-record-written")
+		verifAssert(!w.procErr[i], "c05-dead-lettered-record-written")
 		for _, prev := range d.writes {
 			verifAssert(prev != i, "c05-record-written-twice")
 		}
